@@ -43,6 +43,12 @@ def _skel(seed):
     return ml.Driver("skel", [ml.two_regime_series(9, 1, 3)], W=2, K=2, beta=1.0, m=2, biased=True)
 
 
+@ml.driver("skel_nodonor")
+def _skel_nd(seed):
+    # min_cluster_size 5 with 8 windows: nobody ever holds 2m points, an emptied cluster cannot be refilled
+    return ml.Driver("skel_nodonor", [ml.two_regime_series(9, 1, 3)], W=2, K=2, beta=1.0, m=5, biased=True)
+
+
 def work_skeleton(task):
     """The relabel phase's OUTPUT is an environment answer here: the real phase runs, then its labelling is
     replaced by the next scripted one.  Every sequence over a 5-labelling alphabet (balanced, shifted, one
@@ -58,7 +64,7 @@ def work_skeleton(task):
     (limit, firsts, draws) = task[:3]
     monitors = task[3] if len(task) > 3 else ["C09"]
     acc = Acc()
-    d = ml.get_driver("skel", 0)
+    d = ml.get_driver(task[4] if len(task) > 4 else "skel", 0)
     names = sorted(SK_ALPHA)
     for first in firsts:
         for rest in itertools.product(names, repeat=limit - 1):
@@ -74,10 +80,16 @@ def work_skeleton(task):
                 finally:
                     TRACER.sampler.default_mode = "first"
                 acc.n += 1
-                case = {"kind": "skeleton", "limit": limit, "sequence": list(seq), "draw": draw}
+                case = {"kind": "skeleton", "limit": limit, "sequence": list(seq), "draw": draw, "driver": d.name}
                 if rec.error is not None:
                     acc.count("skeleton_raised", type(rec.error).__name__)
                     continue
+                if d.name == "skel_nodonor":
+                    # a run that got past an emptied / singleton cluster without a possible donor
+                    outs = [seq[i] for i in range(min(len(rec.rounds), limit) - 1)]
+                    if any(o in ("E", "S") for o in outs):
+                        acc.fail(case, f"relabel outputs {list(seq)}, limit {limit}, min_cluster_size 5: the run went on "
+                                       f"past a cluster with < 2 windows although no cluster holds 2m windows")
                 n, _ = ml.final_round(rec)
                 acc.count("skeleton_rounds", n)
                 if len(set(seq)) > 1:
@@ -108,6 +120,7 @@ def run(ctx):
     lib.load("nojit")
     top = 6 if ctx.thorough else 4
     sk = [(limit, [f], ("first", "last")) for limit in range(1, top + 1) for f in sorted(SK_ALPHA)]
+    sk += [(limit, [f], ("first",), ["C09"], "skel_nodonor") for limit in (2, 3) for f in sorted(SK_ALPHA)]
     for r in ctx.pmap(work_skeleton, sk):
         ctx.take(r)
     ps = plans(ctx)
@@ -134,6 +147,7 @@ def replay(ctx, case):
     if case.get("kind") == "skeleton":
         from vlib import lib
         lib.load("nojit")
-        ctx.take(work_skeleton((case["limit"], [case["sequence"][0]], (case["draw"],), case.get("monitors", ["C09"]))))
+        ctx.take(work_skeleton((case["limit"], [case["sequence"][0]], (case["draw"],), case.get("monitors", ["C09"]),
+                                case.get("driver", "skel"))))
         return
     ml.replay_case(ctx, case, MONS, conform=True)
